@@ -96,4 +96,20 @@ theorem stream_quad_datasets (enc encG : Term → M TermEnc (List Row × WTerm))
     swap ((Gen.QuadStream.quad enc encG exc Gen.DatasetsFrameFlow.frame_from_bounds terms).exec s) = s.quad exc terms :=
   stream_quad_eq enc encG henc hencG exc _ s (fun f hf => datasets_frame_from_bounds f (hf.trans hk)) terms
 
+/-- `Stream.namespace_declaration`: the rows of the translated `encode_namespace_declaration` all reach the flow; nothing else
+    of the stream changes (C14) -/
+theorem stream_namespace_declaration_eq (s : Stream) (name iri : String)
+    (hp : s.enc.te.prefixes.lookup.evicting = true → s.enc.te.prefixes.lookup.data ≠ [])
+    (hn : s.enc.te.names.lookup.evicting = true → s.enc.te.names.lookup.data ≠ []) :
+    swap ((Gen.Stream.namespace_declaration name iri).exec s) = s.namespaceDeclaration name iri := by
+  unfold Gen.Stream.namespace_declaration Stream.namespaceDeclaration
+  have h1 := encode_namespace_declaration_eq s.enc.te name iri hp hn
+  simp only [M.exec, ExceptT.run, StateT.run] at h1
+  rcases he : encodeNamespace s.enc.te name iri with ⟨te', r⟩
+  rw [he] at h1
+  have h1' := swap_eq h1
+  cases r with
+  | error e => py_simp [swap, h1', he]
+  | ok rows => py_simp [swap, h1', he, flowExtend, Stream.pushRows]
+
 end Jelly.Translated
